@@ -51,6 +51,7 @@ def run(ctx):
     # ------------------------------------------------------------------ S1
     ctx.rule("S1", "entropy only when no seed is given; seeded generator = seed_from_u64(payload); all rand use goes through the factories")
     factories = []
+    seeded_sites = set()
     n_entropy = 0
     for b, t in all_calls(prog, scope):
         nm = t.callee.short
@@ -66,16 +67,58 @@ def run(ctx):
             ctx.require(ok, "S1", "entropy|%s|%s" % (b.short, nm.split("::")[-1]), "%s in %s is reached only when seed is None" % (nm, b.short.split("::")[-1]), "%s in %s can run although a seed was supplied: the result is not a function of the arguments" % (nm, b.short), loc_str(t.span))
         if nm.endswith("SeedableRng::seed_from_u64"):
             sp = b.param_local("seed")
-            atoms = controlling_atoms(fl, t.bb)
-            some = any(isinstance(te, tuple) and te[0] == "discr" and sp is not None and te[1] == b.local_name(sp) and isinstance(v, tuple) and v == (1,) for (te, v, a) in atoms)
-            if some:
-                sl = fl.slice_local(fl._op_reads(t.args[0]), data_only=True)
-                calls = [n for n in sl if n[0] == "CALL"]
-                ok = sp is not None and L(sp) in sl and not calls
-                ctx.require(ok, "S1", "seeded|" + b.short, "with Some(seed) the generator of %s is seed_from_u64(seed)" % b.short.split("::")[-1], "the seeded generator of %s is not built from the seed alone" % b.short, loc_str(t.span))
+            if sp is None:
+                continue
+            # the value handed to seed_from_u64: every definition of it that is made while seed is Some (or that is
+            # not under a test of seed at all) must be the payload of the seed and nothing else; what is assigned
+            # while seed is None is the entropy branch and is free.  This covers `match seed {Some(s) => from(s), None
+            # => from(entropy)}`, `from(seed.unwrap_or_else(entropy))`, `let s = if let Some(s) = seed {s} else {..}`.
+            roots = set()
+            work = [o.place.local for o in t.args[:1] if o.place is not None and not o.place.proj]
+            while work:
+                l = work.pop()
+                if l in roots:
+                    continue
+                roots.add(l)
+                for (dbb, d) in b.assigns_to(l):
+                    rv = getattr(d, "rv", None)
+                    if rv is not None and rv.k == "use" and rv.ops[0].place is not None and not rv.ops[0].place.proj and not (1 <= rv.ops[0].place.local <= b.arg_count):
+                        work.append(rv.ops[0].place.local)
+            good = True
+            some_def = False
+            why = ""
+            for l in sorted(roots):
+                for (dbb, d) in b.assigns_to(l):
+                    rv = getattr(d, "rv", None)
+                    if rv is not None and rv.k == "use" and rv.ops[0].place is not None and not rv.ops[0].place.proj and rv.ops[0].place.local in roots:
+                        continue  # a copy between the roots
+                    pol = None
+                    for (te, v, a) in controlling_atoms(fl, dbb):
+                        if isinstance(te, tuple) and te[0] == "discr" and te[1] == b.local_name(sp) and isinstance(v, tuple) and len(v) == 1:
+                            pol = v[0]
+                    if pol == 0:
+                        continue  # seed is None here
+                    reads = fl._op_reads(rv.ops[0]) if rv is not None and rv.ops else {("CALL", dbb)}
+                    sl = fl.slice_local(reads, data_only=True)
+                    calls = [n for n in sl if n[0] == "CALL"]
+                    if L(sp) in sl and not calls:
+                        some_def = True
+                    else:
+                        good = False
+                        why = "a value that is not the seed's payload can reach seed_from_u64 while a seed is given (%s)" % loc_str(d.span)
+            # the call itself must not be limited to the None branch
+            pol_call = None
+            for (te, v, a) in controlling_atoms(fl, t.bb):
+                if isinstance(te, tuple) and te[0] == "discr" and te[1] == b.local_name(sp) and isinstance(v, tuple) and len(v) == 1:
+                    pol_call = v[0]
+            if pol_call == 0:
+                continue  # the entropy-seeded generator
+            ctx.require(good and some_def, "S1", "seeded|" + b.short, "with Some(seed) the generator of %s is seed_from_u64(seed)" % b.short.split("::")[-1], "the seeded generator of %s is not built from the seed alone%s" % (b.short, (": " + why) if why else ""), loc_str(t.span))
+            if good and some_def:
+                seeded_sites.add((b.path, t.bb))
                 if b.path not in factories:
                     factories.append(b.path)
-    ctx.floor("S1", "generator_factories", len(factories), 2)
+    ctx.floor("S1", "generator_factories", len(factories), 1)
     ctx.floor("S1", "entropy_sites", n_entropy, 2)
     # every other rand call: its generator argument derives from a factory
     n_use = 0
@@ -85,8 +128,8 @@ def run(ctx):
             continue
         if any(nm.startswith(e) for e in ENTROPY) or nm.endswith("seed_from_u64"):
             continue
-        if b.path in factories:
-            continue  # inside a factory, already covered by the entropy rule
+        if b.path in factories and (nm.endswith("next_u64") or nm.endswith("RngCore::next_u32") or "thread_rng" in nm):
+            continue  # drawing the entropy seed inside a factory, already covered by the entropy rule
         n_use += 1
         fl = flows.of(b)
         gen_args = [a for a in t.args if a.place is not None and ("Rng" in a.place.ty or "rng" in a.place.ty.lower())]
@@ -97,6 +140,9 @@ def run(ctx):
                 if n[0] == "CALL":
                     tt = prog.bodies[bp].blocks[n[1]].term
                     if tt.callee and tt.callee.target_path(prog) in factories:
+                        ok = True
+                    # ... or is made on the spot by a validated seed_from_u64(seed) (a factory written inline)
+                    if (bp, n[1]) in seeded_sites:
                         ok = True
         ctx.require(ok, "S1", "use|%s|%s" % (b.short, nm.split("::")[-1]), "%s in %s draws from a factory-made generator" % (nm.split("::")[-1], b.short.split("::")[-1]), "%s in %s draws from a generator that does not come from get_rng / get_random_number_generator" % (nm, b.short), loc_str(t.span))
     ctx.floor("S1", "rand_uses", n_use, 2)
